@@ -25,6 +25,61 @@ class Variant:
     rule: str | None = None                      # expected rule id (None: neutral, must stay clean)
     construct: str = ''                          # substring of the expected construct
     note: str = ''
+    patch: str = ''                              # path of a unified diff (seeded change) instead of edits
+
+
+def apply_unified(diff: str, source) -> dict[str, str]:
+    """apply a unified diff in memory; `source(rel)` gives the current text.  Raises ValueError
+    when a hunk's context does not match (the tree has moved on)."""
+    out: dict[str, str] = {}
+    rel = None
+    lines: list[str] = []
+    res: list[str] = []
+    pos = 0
+
+    def flush():
+        nonlocal rel
+        if rel is not None:
+            res.extend(lines[pos:])
+            out[rel] = ''.join(res)
+        rel = None
+    it = iter(diff.splitlines(keepends=True))
+    for ln in it:
+        if ln.startswith('+++ b/'):
+            flush()
+            rel = ln[6:].strip()
+            lines = source(rel).splitlines(keepends=True)
+            res = []
+            pos = 0
+        elif ln.startswith('@@') and rel is not None:
+            start = int(ln.split()[1].split(',')[0][1:])
+            res.extend(lines[pos:start - 1])
+            pos = start - 1
+        elif rel is not None and ln[:1] in (' ', '-', '+') and not ln.startswith(('--- ', '+++ ')):
+            body = ln[1:]
+            if ln[0] == '+':
+                res.append(body)
+            else:
+                if pos >= len(lines) or lines[pos].rstrip('\n') != body.rstrip('\n'):
+                    raise ValueError(f'{rel}:{pos + 1}: context does not match')
+                if ln[0] == ' ':
+                    res.append(lines[pos])
+                pos += 1
+    flush()
+    return out
+
+
+def seed_variants(prop: str, root: str = '') -> list['Variant']:
+    """the seeded changes kept under /verif/seeded/<prop>-*/ as breaking variants"""
+    import json
+    import pathlib
+    base = pathlib.Path(root or pathlib.Path(__file__).resolve().parent.parent / 'seeded')
+    out = []
+    for d in sorted(base.glob(f'{prop}-*')):
+        meta = json.loads((d / 'meta.json').read_text())
+        out.append(Variant(f'seeded change {d.name}', [], meta.get('expect_rule', '*'),
+                           meta.get('expect_construct', ''), patch=str(d / 'patch.diff')))
+    return out
 
 
 def _run_one(args) -> tuple[str, str, list[tuple[str, str, str]], str]:
@@ -32,6 +87,11 @@ def _run_one(args) -> tuple[str, str, list[tuple[str, str, str]], str]:
     mod = importlib.import_module(f'sa.props.{prop.lower()}')
     base = Repo()
     overlay: dict[str, str] = {}
+    if v.patch:
+        try:
+            overlay = apply_unified(open(v.patch).read(), base.source)
+        except (ValueError, AnalysisError, OSError) as e:
+            return v.name, 'skipped', [], f'patch does not apply: {e}'
     for rel, old, new in v.edits:
         try:
             src = overlay.get(rel) or base.source(rel)
@@ -84,7 +144,8 @@ def run_variants(prop: str, variants: list[Variant], rep: Report) -> dict:
                 out['details'].append({'variant': v.name, 'kind': 'neutral', 'verdict': 'clean'})
             continue
         ran_breaking += 1
-        hit = [i for i in new if i[0] == v.rule and (v.construct in i[1] or v.construct in i[2])]
+        hit = [i for i in new if (v.rule == '*' and i not in baseline or i[0] == v.rule)
+               and (v.construct in i[1] or v.construct in i[2])]
         if hit:
             out['detected'] += 1
             out['details'].append({'variant': v.name, 'kind': 'breaking', 'verdict': 'detected',
@@ -103,5 +164,5 @@ def run_variants(prop: str, variants: list[Variant], rep: Report) -> dict:
 
 def make_selftest(prop: str, variants: list[Variant]):
     def selftest(rep: Report) -> dict:
-        return run_variants(prop, variants, rep)
+        return run_variants(prop, list(variants) + seed_variants(prop), rep)
     return selftest
